@@ -12,7 +12,6 @@ package cache
 
 import (
 	"context"
-	"errors"
 	"fmt"
 	"sync"
 	"testing"
@@ -36,7 +35,7 @@ func TestVerifC07CacheNode(t *testing.T) {
 	mr := miniredis.RunT(t)
 	rds := redis.New(mr.Addr())
 	st := NewStat("verif-c07")
-	errNotFound := errors.New("c07: not found")
+	errNotFound := verifc07.ErrNotFound
 	verifc07.WriteTrace(t, secs, func(cfg verifh.Cfg) verifc07.Target {
 		mr.FlushAll()
 		var barrier syncx.SingleFlight = syncx.NewSingleFlight()
